@@ -519,3 +519,15 @@ func vStackingOrderLong() (n int, fails []string) {
 //@   call insertBox#1 assert[block-in-tree-order] arg1 == *blocksIndex
 //@   call insertBox#2 assert[block-or-cell-in-tree-order] arg1 == *blocksAndCellsIndex
 //@   call NewStackingContextFromBox#3 assert[float] arg0 == box && arg2 == childContexts && style.GetPosition().String == "static" && callresult(IsFloated, 1)
+
+// C14 (painting and clipping are always preceded by path construction): roundedBoxPath ALWAYS adds a closed
+// path for its box - the plain rectangle (x, y, w, h) when no corner is rounded, whatever its size (an empty box
+// gives an empty rectangle, which clips everything and paints nothing: the callers clip or paint
+// unconditionally), the four sides and four corner curves otherwise.
+//@ func roundedBoxPath
+//@   props C14
+//@   modifies anything
+//@   shows[always-a-path] calls(Rectangle) == 1 || (calls(MoveTo) == 1 && calls(LineTo) == 4 && calls(CubicTo) == 4)
+//@   call Rectangle#1 assert[the-box] arg1 == pr.Fl(radii.X) && arg2 == pr.Fl(radii.Y) && arg3 == pr.Fl(radii.Width) && arg4 == pr.Fl(radii.Height)
+//@   call MoveTo#1 assert[starts-after-the-top-left-corner] arg1 == pr.Fl(radii.X) + pr.Fl(radii.TopLeft[0]) && arg2 == pr.Fl(radii.Y)
+//@   call CubicTo#4 assert[closes-at-the-start] arg5 == pr.Fl(radii.X) + pr.Fl(radii.TopLeft[0]) && arg6 == pr.Fl(radii.Y)
